@@ -183,7 +183,12 @@ def make_gate(rng, depth, pool, allow=("leaf", "general", "prepare", "controlled
         return g
     if k == "timeevo":
         h, f = hermitian_pauli_operator(rng.choice([1, 2]), rng, rng.choice([0.0, 0.5, 3.0]))
-        return G.TimeEvolutionGate(h, angle(rng) if rng.random() < 0.5 else rng.uniform(-3, 3))
+        # scipy.linalg.expm (Pade + repeated squaring) loses unitarity at the level eps*|t|*||H|| (6e-5 at |t|*||H|| = 5e11): a float
+        # artefact of SciPy outside every claim; the evolution time is therefore sampled with |t| <= 1e4 (|t|*||H|| <= 3e4)
+        t = angle(rng) if rng.random() < 0.5 else rng.uniform(-3, 3)
+        if abs(t) > 1e4:
+            t = math.copysign(1e4 - 0.25, t)
+        return G.TimeEvolutionGate(h, t)
     if k == "block":
         h, f = hermitian_pauli_operator(rng.choice([1, 2]), rng, rng.choice([0.0, 0.5, 0.9, 1 - 1e-9]))
         m = rng.choice(list(G.BlockEncodingMethod))
@@ -232,11 +237,13 @@ def reparam(g, rng):
         g.vec = v
     elif n == "TimeEvolutionGate":
         g.t = rng.uniform(-3, 3)
+        f = rng.choice([0.5, -1.0, 2.0])
         for ps in g.h.pstrings:
-            ps.weight *= rng.choice([0.5, -1.0, 2.0])
+            ps.weight *= f
     elif n == "BlockEncodingGate":
+        f = rng.choice([0.5, -0.25, 0.8])           # ONE common factor: the norm shrinks and stays < 1 (different factors per string could undo a cancellation)
         for ps in g.h.pstrings:
-            ps.weight *= rng.choice([0.5, -0.25, 0.8])           # norm only shrinks: stays < 1
+            ps.weight *= f
 
 
 def describe(g):
